@@ -141,9 +141,73 @@ func (propC11) ID() string { return "C11" }
 
 // long documents: far more tokens than any internal buffer, and sources of
 // several kilobytes (size-dependent behaviour must not depend on the size)
-const longDocs = 24
+const longDocs = 24 + 16
+
+// bigLiteralSentence / manyListsSentence / deepSentence: documents that are large
+// in other dimensions than the number of items.
+func specialLongSentence(i int) sentence {
+	switch {
+	case i < 6: // one very long string literal (as value, and as key)
+		n := []int{300, 1022, 1023, 1024, 2500, 6000}[i]
+		str := strings.Repeat("abcdefghij", n/10) + strings.Repeat("z", n%10)
+		if i%2 == 0 {
+			text := "[\"" + str + "\", 1](List)"
+			return sentence{Text: text, Want: &node{Kind: "List", Kids: []*node{{Kind: "string", S: str}, {Kind: "int", I: 1}}}}
+		}
+		text := "[\"" + str + "\": 1](Catalog)"
+		return sentence{Text: text, Want: &node{Kind: "Catalog", Kids: []*node{{Kind: "assoc", Kids: []*node{{Kind: "string", S: str}, {Kind: "int", I: 1}}}}}}
+	case i < 10: // many multi-line inner lists in one flat document
+		n := []int{60, 260, 300, 450}[i-6]
+		want := &node{Kind: "List"}
+		var b strings.Builder
+		b.WriteString("[\n")
+		for k := 0; k < n; k++ {
+			fmt.Fprintf(&b, "    [\n        %d\n        %d\n    ](Array)\n", k, k+1)
+			want.Kids = append(want.Kids, &node{Kind: "Array", Kids: []*node{{Kind: "int", I: int64(k)}, {Kind: "int", I: int64(k + 1)}}})
+		}
+		b.WriteString("](List)\n")
+		return sentence{Text: b.String(), Want: want}
+	case i < 13: // deep but valid nesting
+		d := []int{20, 40, 120}[i-10]
+		text := strings.Repeat("[", d) + "7" + strings.Repeat("](List)", d)
+		want := &node{Kind: "int", I: 7}
+		for k := 0; k < d; k++ {
+			want = &node{Kind: "List", Kids: []*node{want}}
+		}
+		return sentence{Text: text, Want: want}
+	default: // a catalog with many entries, a long float, a document with > 1000 lines
+		switch i {
+		case 13:
+			want := &node{Kind: "Catalog"}
+			var b strings.Builder
+			b.WriteString("[\n")
+			for k := 0; k < 300; k++ {
+				fmt.Fprintf(&b, "    \"key%d\": %d\n", k, k)
+				want.Kids = append(want.Kids, &node{Kind: "assoc", Kids: []*node{{Kind: "string", S: fmt.Sprintf("key%d", k)}, {Kind: "int", I: int64(k)}}})
+			}
+			b.WriteString("](Catalog)\n")
+			return sentence{Text: b.String(), Want: want}
+		case 14:
+			digits := strings.Repeat("1234567890", 110)
+			lit := "0." + digits + "E+10"
+			f, _ := strconv.ParseFloat(lit, 64)
+			return sentence{Text: "[" + lit + "](Array)", Want: &node{Kind: "Array", Kids: []*node{{Kind: "float", F: f}}}}
+		default:
+			want := &node{Kind: "Array"}
+			var items []string
+			for k := 0; k < 1100; k++ {
+				items = append(items, "true")
+				want.Kids = append(want.Kids, &node{Kind: "bool", B: true})
+			}
+			return sentence{Text: "[\n" + strings.Join(items, "\n") + "\n](Array)\n", Want: want}
+		}
+	}
+}
 
 func longSentence(i int) sentence {
+	if i >= 24 {
+		return specialLongSentence(i - 24)
+	}
 	n := []int{600, 800, 1200}[i%3]
 	layout := (i / 3) % 4
 	ctx := []string{"List", "Array"}[(i/12)%2]
@@ -318,7 +382,7 @@ func sentenceSig(s sentence) string {
 		if len(s.Want.Kids) == 0 {
 			layout = "empty"
 		}
-		if len(s.Want.Kids) >= 500 {
+		if len(s.Want.Kids) >= 200 || len(s.Text) > 1500 {
 			layout += ":long-document"
 		}
 		return s.Want.Kind + ":" + layout
